@@ -33,6 +33,11 @@ def run(ctx):
                                                  {"MaxLeaves": maxleaves_ps}), timeout=600, label="weak_NoProofIndexBinding")
     if not any(v["name"] == "PartBinds" for v in rw.violations):
         raise Undecided("vacuity: weakened spec Weak_NoProofIndexBinding does not violate PartBinds")
+    # AddPart binding proof index/total to the slot only modulo 2^32 must be refuted (crafted header + shifted proofs)
+    rt = ctx.tlc("C10_partset", core.cfg_variant(ctx, "C10_weak_TruncatedPosition.cfg", "C10_weak_trunc_run.cfg",
+                                                 {"MaxLeaves": maxleaves_ps}), timeout=600, label="weak_TruncatedPosition")
+    if not any(v["name"] in ("CompleteMatchesHeader", "AdmitOnlyProven") for v in rt.violations):
+        raise Undecided("vacuity: weakened spec Weak_TruncatedPosition does not violate CompleteMatchesHeader")
     rs = ctx.tlc("C10_cases", core.cfg_variant(ctx, "C10_cases_strict.cfg", "C10_strict_run.cfg",
                                                {"MaxLeaves": min(maxleaves_cases, 3)}), timeout=600, label="cases_strict")
     strict_refuted = any(v["name"] == "CaseProofBinds" for v in rs.violations)
@@ -53,7 +58,7 @@ def run(ctx):
             a = g.nodes[nid]["act"]
             p = to_json(a["part"])
             parts.append({"index": p["index"], "bytes": p["bytes"], "proof": p["proof"]})
-        scheds.append({"data": to_json(st0["data"]), "parts": parts})
+        scheds.append({"data": to_json(st0["data"]), "hdr": to_json(st0["hdr"]), "parts": parts})
     graph_states = len(g.nodes)
 
     # ---- 3. replay on the real code ----------------------------------------------------
@@ -116,6 +121,7 @@ def run(ctx):
         "conformance_drift": [{"what": d["what"], "step": d["row"]} for d in drift[:5]],
         "conformance_drift_count": len(drift),
         "nonvacuity": {"Weak_NoProofIndexBinding refuted by TLC": True,
+                       "Weak_TruncatedPosition (index/total bound modulo 2^32) refuted by TLC": True,
                        "strict ProofBinds (no shape-alias exemption) refuted by TLC": strict_refuted},
         "known_findings_reproduced": dict(verdict.known),
     }
@@ -135,7 +141,7 @@ def replay(ctx, path):
     prefix = rep["replay"]["prefix"]
     cases, scheds = [], []
     if prefix and prefix[0].get("ev") == "Reset":
-        scheds.append({"data": prefix[0]["data"], "parts": [r["part"] for r in prefix[1:]]})
+        scheds.append({"data": prefix[0]["data"], "hdr": prefix[0].get("hdr"), "parts": [r["part"] for r in prefix[1:]]})
     else:
         for r in prefix:
             cases.append({k: r[k] for k in ("leaves", "pos", "proof", "item", "mut")})
